@@ -12,10 +12,31 @@ A_REGIME = ["numpy 2.5.3 semantics as transcribed in spec/abs/NpVal.tla and PySe
 
 
 
+MECH = {
+    "C02": [("MC_ShapeMech", ["SingleOK", "ComposeOK", "IntOK", "BuildOK"])],
+    "C04": [("ReduceMech", ["BroadcastOK"])],
+    "C05": [("ReduceMech", ["ReduceOK", "ReduceNeverFails"])],
+    "C06": [("MC_ShapeMech", ["ComposeOK", "BuildOK"])],
+    "C07": [("ReduceMech", ["AccumulateOK", "CumsumOK"])],
+    "C14": [("RLMech", ["RoundTrip"])],
+    "C15": [("RLMech", ["SliceOK"])],
+    "C16": [("RLMech", ["MergeOK"])],
+}
+APA = {"C02": [("ColSliceApa", "Agree")]}
+
+
+def mech_stages(res, prop):
+    for module, lemmas in MECH.get(prop, []):
+        runner.mech_stage(res, module, lemmas)
+    for module, inv in APA.get(prop, []):
+        runner.apalache_stage(res, module, inv)
+
+
 def _ragged_check(prop, strict, n_quick, n_thorough, text, rule):
     def run():
         t = Timer()
         res = runner.Result(prop)
+        mech_stages(res, prop)
         runner.model_stage(res, prop, "ragged", "MC_" + prop, strict=strict)
         runner.trace_stage(res, prop, "ragged", "drivers_ragged", "Trace_Ragged", n_quick if Q else n_thorough)
         return runner.finish(res, text, rule, A_REGIME, t.s())
@@ -30,6 +51,7 @@ def _heap_check(prop, cfg, n_quick, n_thorough, text):
     def run():
         t = Timer()
         res = runner.Result(prop)
+        mech_stages(res, prop)
         runner.heap_model_stage(res, prop, cfg)
         runner.heap_trace_stage(res, prop, n_quick if Q else n_thorough)
         return runner.finish(res, text,
@@ -87,6 +109,7 @@ def _rl_check(prop, strict, n_quick, n_thorough, text):
     def run():
         t = Timer()
         res = runner.Result(prop)
+        mech_stages(res, prop)
         runner.model_stage(res, prop, "rl", "MC_RL", strict=strict, shared=True)
         runner.trace_stage(res, prop, "rl", "drivers_rl", "Trace_RL", n_quick if Q else n_thorough)
         return runner.finish(res, text + RL_BIND,
@@ -110,6 +133,7 @@ def c14():
     """round trip + the canonical-form promises on every run-length object the C15 / C16 cases produce"""
     t = Timer()
     res = runner.Result("C14")
+    mech_stages(res, "C14")
     runner.model_stage(res, "C14", "rl", "MC_RL", strict=True, shared=True)
     runner.trace_stage(res, "C14", "rl", "drivers_rl", "Trace_RL", 3000 if Q else 30000)
     for other in ("C15", "C16"):
